@@ -269,6 +269,18 @@ Definition src2_assertion_sig (check_sig : pyval -> pyval -> pyval -> pyval) (v_
    | BErr => PErr
    end).
 
+(* /verif/work/C03/slices/sigver_validate_signature_cmdline.py:validate_signature__cmdline, lines 2-18 *)
+Definition src2_verify_cmdline (v_self : pyval) (v_cert_file : pyval) (v_cert_type : pyval) (v_node_name : pyval) (v_node_id : pyval) (v_tmp : pyval) : pyval :=
+  let v_com_list := PErr in
+  (py_bind (p2_mklist [(p2_attr_x v_self "xmlsec"); (PStr "--verify"); (PStr "--enabled-reference-uris"); (PStr "empty,same-doc"); (PStr "--enabled-key-data"); (PStr "raw-x509-cert"); (p2_fconcat [PStr "--pubkey-cert-"; p2_str v_cert_type]); v_cert_file; (PStr "--id-attr:ID"); v_node_name]) (fun v_com_list =>
+   (match p2_branch v_node_id with
+   | BTrue => (py_bind (p2_extend v_com_list (p2_mklist [(PStr "--node-id"); v_node_id])) (fun v_com_list =>
+   v_com_list))
+   | BFalse => v_com_list
+   | BExc n_2 => (PExc n_2)
+   | BErr => PErr
+   end))).
+
 (* /verif/work/C03/slices/response_parse_assertion_plain.py:parse_assertion__plain, lines 2-8 *)
 Definition src2_plain_assertions (assertion_ok : pyval -> pyval -> pyval) (v_self : pyval) (v_keys : pyval) : pyval :=
   (match p2_branch (p2_attr_x (p2_attr_x v_self "response") "assertion") with
